@@ -598,7 +598,7 @@ class _DivZero:
         else: del SymReal.__floordiv__
 CtxU.fresh = 0
 
-def c_gw1n(devkey, nout):
+def c_gw1n(devkey, nout, sym_vco_margin=False):
     t0 = time.time(); cls, device = GW1N_DEVICES[devkey]
     fnc = cls.compute_config
     ok, why = _loops_are(fnc, {0: "range(1, 64)", 1: "range(1, 64)", 2: "[2, 4, 8, 16, 32, 48, 64, 80, 96, 112, 128]"})
@@ -606,6 +606,8 @@ def c_gw1n(devkey, nout):
     if not ok: return dict(results=[res("GW1NPLL.compute_config.loops", "pysym", UNKNOWN, 0, "", info=why)], functions=[])
     def run(ctx):
         pll = cls("dev", device); pll.logger.disabled = True
+        if sym_vco_margin:          # the constructor option vco_margin: ANY guard band 0 <= vm < 1 (the VCO window shrinks at both ends)
+            vm = SymReal(z3.Real("vco_margin")); ctx.assume(vm >= 0); ctx.assume(vm < 1); pll.vco_margin = vm
         fin = SymReal(z3.Real("fin")); ctx.assume(fin > 0)
         pll.clkin_freq = fin
         reqs = []
@@ -622,7 +624,7 @@ def c_gw1n(devkey, nout):
             return [("ranges.idiv", _member(i, GW1N_RANGES["idiv"])), ("ranges.fdiv", _member(fd, GW1N_RANGES["fdiv"])),
                     ("ranges.odiv", z3.Or(*[_r(od) == v for v in GW1N_RANGES["odiv"]])),
                     ("ranges.pfd", z3.And(pfd >= pll.pfd_freq_range[0], pfd <= pll.pfd_freq_range[1])),
-                    ("ranges.vco", z3.And(vco >= vmin * (1 + pll.vco_margin), vco <= vmax * (1 - pll.vco_margin))),
+                    ("ranges.vco", z3.And(vco >= _r(vmin * (1 + pll.vco_margin)), vco <= _r(vmax * (1 - pll.vco_margin)))),
                     ("meets.reference", _within(clkout, box["freq_max"], box["m"]))]
         def abstract_member(vc):
             cfg = dict(idiv=vc.fresh("int", "idiv_a"), fdiv=vc.fresh("int", "fdiv_a"), odiv=vc.fresh("int", "odiv_a"), diff=vc.fresh("real", "diff_a"))
@@ -1034,7 +1036,7 @@ def cases(tier):
           Case("StratixVPLL(-C1,1)", c_intel, "StratixVPLL", "-C1", 1), Case("StratixVPLL(-C4,1)", c_intel, "StratixVPLL", "-C4", 1),
           Case("Intel.tables", c_intel_tables), Case("Intel.instance+completeness", c_intel_instance),
           Case("GW1NPLL(GW1N,1)", c_gw1n, "GW1N", 1), Case("GW1NPLL(GW1NS,1)", c_gw1n, "GW1NS", 1), Case("GW1NPLL(GW1N-1S,1)", c_gw1n, "GW1N-1S", 1), Case("GW2APLL(GW2A,1)", c_gw1n, "GW2A", 1),
-          Case("GW1NPLL(GW1N,2)", c_gw1n, "GW1N", 2), Case("GW2APLL(GW2A,2)", c_gw1n, "GW2A", 2), Case("GW1NPLL+GW2APLL(bounded)", c_gw1n_bounded),
+          Case("GW1NPLL(GW1N,2)", c_gw1n, "GW1N", 2), Case("GW1NPLL(GW1N,1,any vco_margin)", c_gw1n, "GW1N", 1, True), Case("GW2APLL(GW2A,1,any vco_margin)", c_gw1n, "GW2A", 1, True), Case("GW2APLL(GW2A,2)", c_gw1n, "GW2A", 2), Case("GW1NPLL+GW2APLL(bounded)", c_gw1n_bounded),
           Case("GW5APLL(GW5A,1)", c_gw5a, GW5A_DEVICES[0][1], 1), Case("GW5APLL(GW5AT,1)", c_gw5a, GW5A_DEVICES[1][1], 1), Case("GW5APLL(GW5AST,1)", c_gw5a, GW5A_DEVICES[2][1], 1),
           Case("GW5APLL(bounded)", c_gw5a_bounded),
           Case("USPMMCM(-1,1)", c_uspmmcm, -1, 1), Case("USPMMCM(-1,2)", c_uspmmcm, -1, 2), Case("USPMMCM(-2,4)", c_uspmmcm, -2, 4), Case("USPMMCM(-3,2)", c_uspmmcm, -3, 2),
